@@ -330,6 +330,66 @@ void randomCase(int i) {
 		for (size_t k = 0; k < l; k++) s.push_back((uint16_t)(rng.coin(4) && !s.empty() ? s.back() : rng.below((uint32_t)std::min<size_t>(n, 65535))));
 	}
 	checkStrips<uint16_t>(strips);
+	{
+		// the library's own caller of the strip expansion: a skin partition block with 1..5 partitions, each stored as strips or as a
+		// triangle list; the container-level conversion expands every strip partition exactly like the naive definition
+		NiSkinPartition sp;
+		size_t np = 1 + rng.below(5);
+		std::vector<std::vector<Triangle>> want(np);
+		std::vector<char> hadStrips(np, 0);
+		bool any = false;
+		for (size_t q = 0; q < np; q++) {
+			NiSkinPartition::PartitionBlock pb;
+			uint16_t nvp = (uint16_t)(3 + rng.below(30));
+			for (uint16_t v = 0; v < nvp; v++) pb.vertexMap.push_back(v);
+			pb.numVertices = nvp;
+			pb.hasVertexMap = true;
+			pb.hasFaces = true;
+			if (rng.below(4) != 0) {
+				size_t ns = 1 + rng.below(3);
+				size_t cnt = 0;
+				for (size_t k = 0; k < ns; k++) {
+					std::vector<uint16_t> st;
+					size_t l = 3 + rng.below(12);
+					for (size_t j = 0; j < l; j++) st.push_back((uint16_t)(rng.coin(4) && !st.empty() ? st.back() : rng.below(nvp)));
+					pb.stripLengths.push_back((uint16_t)st.size());
+					cnt += st.size() - 2;
+					for (size_t i = 2; i < st.size(); i++) {
+						uint16_t a = st[i - 2], b = st[i - 1], c = st[i];
+						if (a == b || b == c || a == c) continue;
+						want[q].push_back(i % 2 == 0 ? Triangle(a, b, c) : Triangle(a, c, b));
+					}
+					pb.strips.push_back(st);
+				}
+				pb.numStrips = (uint16_t)ns;
+				pb.numTriangles = (uint16_t)cnt;
+				hadStrips[q] = 1;
+				any = true;
+			}
+			else {
+				size_t ntp = rng.below(6);
+				for (size_t k = 0; k < ntp; k++) pb.triangles.push_back(Triangle((uint16_t)rng.below(nvp), (uint16_t)rng.below(nvp), (uint16_t)rng.below(nvp)));
+				pb.numTriangles = (uint16_t)ntp;
+				want[q] = pb.triangles;
+			}
+			sp.partitions.push_back(pb);
+		}
+		sp.numPartitions = (uint32_t)np;
+		R_eval();
+		bool ret = sp.ConvertStripsToTriangles();
+		std::string why;
+		if (ret != any) why = fmt("returned %d for a block %s strip partitions", (int)ret, any ? "with" : "without");
+		for (size_t q = 0; q < np && why.empty(); q++) {
+			auto& pb = sp.partitions[q];
+			if (pb.numStrips != 0 || !pb.strips.empty() || !pb.stripLengths.empty()) why = fmt("partition %zu of %zu still holds strips", q, np);
+			else if (pb.triangles.size() != want[q].size() || pb.numTriangles != want[q].size()) why = fmt("partition %zu of %zu: %zu triangles (counter %u), naive expansion gives %zu", q, np, pb.triangles.size(), pb.numTriangles, want[q].size());
+			else
+				for (size_t k = 0; k < want[q].size(); k++)
+					if (pb.triangles[k].p1 != want[q][k].p1 || pb.triangles[k].p2 != want[q][k].p2 || pb.triangles[k].p3 != want[q][k].p3) { why = fmt("partition %zu of %zu: triangle %zu differs from the naive expansion", q, np, k); break; }
+		}
+		if (!why.empty()) R_viol("strips-vs-model", "NiSkinPartition::ConvertStripsToTriangles", why);
+		else if (any && np > 1) R_cover(fmt("partition-strips/%d", i));
+	}
 	R_sample(fmt("{\"group\":\"random\",\"n\":%zu,\"mode\":%d,\"deleted\":%zu,\"tris\":%zu}", n, mode, idx.size(), tris.size()));
 }
 
@@ -364,7 +424,7 @@ void run(size_t idx) {
 MonReg reg({"C18", "exploration",
 			"bounded-exhaustive: every sorted index subset (incl. two positions past the end) of vectors of length 0..N for index types u16/u32/int through "
 			"EraseVectorIndices/InsertVectorIndices/GenerateIndexCollapseMap/GenerateIndexExpandMap, all triangle lists over 4 vertices (length<=L) x all collapse maps of size<=5 "
-			"through ApplyMapToTriangles, all strips over {0..3} up to length S, ApplyIndexMapToMapKeys for all maps of size<=6; plus seeded random vectors at the 16-bit limits. "
+			"through ApplyMapToTriangles, all strips over {0..3} up to length S, ApplyIndexMapToMapKeys for all maps of size<=6; plus seeded random vectors at the 16-bit limits and random skin partition blocks (1..5 partitions, strips or lists) through the container-level strip conversion. "
 			"Every result is compared with a naive reference implementation under ASan/UBSan/_GLIBCXX_ASSERTIONS. A case is non-trivial when the operation removes or keeps a "
 			"proper non-empty part; distinct = distinct (function, type, input).",
 			[] { g_cases = buildCases(); return g_cases.size(); }, run, 8, 120.0, false, false, nullptr});
